@@ -113,6 +113,20 @@ META = {
         assumptions=["when the user method returns an error the manager's error makes the processor send no response "
                      "(the coordinator retries): 'never committed/rollbacked on failure' is what is checked"],
     ),
+    "C01": dict(
+        rule="generated schemas (2-4 columns BIGINT/VARCHAR, nullable or not, single and composite keys) x initial rows x "
+             "programs of 1-3 local transactions (autocommit statements or explicit transactions of 1-3 statements: "
+             "UPDATE with literal/bound/increment SET, DELETE, single- and multi-row INSERT; WHERE from comparisons, "
+             "AND/OR, IN, BETWEEN, IS NULL, some with parentheses/NOT) x serializer x compress type x data-validation x "
+             "only-care-update-columns, run through the real AT proxy on memdb inside a real global transaction, then "
+             "rolled back branch by branch by the fake coordinator through the real processors. Observed: lock keys, "
+             "images (decoded from undo_log), table after phase one and after rollback, undo_log, each status. "
+             "non-trivial = phase one changed the table",
+        trusted=["memdb (fidelity to a MySQL server is assumed; its SQL semantics are compared with DB/Store.lean here)",
+                 "fakecoord"],
+        assumptions=["one resource; no foreign writer between phase one and rollback (that is C09)"],
+        timeout=1800,
+    ),
 }
 
 def _member(impl, model):
